@@ -26,7 +26,7 @@ template <size_t PAD> struct __attribute__((packed)) Mov {
 	~Mov() { if(magic != 0xABCEu) ++g_bad; magic = 0xDEADu; --g_live; ++g_dtor; }
 };
 
-enum { COV_SMALL = 0, COV_AT_CAP, COV_OVER_CAP, COV_QUEUE, COV_MOVED_TWICE, COV_CONST_SRC, COV_RVALUE_SRC, COV_SHARED, COV_N };
+enum { COV_SMALL = 0, COV_AT_CAP, COV_OVER_CAP, COV_QUEUE, COV_MOVED_TWICE, COV_CONST_SRC, COV_RVALUE_SRC, COV_SHARED, COV_NEST, COV_N };
 
 template <size_t M> struct Cap { static constexpr size_t value = M < sizeof(eventpp::anydata_internal_::LargeData) ? sizeof(eventpp::anydata_internal_::LargeData) : M; };
 
@@ -163,11 +163,39 @@ template <size_t M> static void test_shared()
 #endif
 #define CAP (Cap<MM>::value)
 
+// a held type with an initializer_list constructor whose elements can be built from the type itself (std::vector<std::any>, a JSON-like tree): moving
+// or copying the holder must move / copy the held object, not wrap it into a one-element list of itself
+struct Nest;
+struct Elem { uint32_t v; uint32_t depth; Elem(const Nest & n); };          // an element type that can be built from the container itself (as std::any from a vector)
+struct Nest {
+	uint32_t v; uint32_t depth;
+	explicit Nest(uint32_t x) : v(x), depth(0) {}
+	Nest(const Nest & o) : v(o.v), depth(o.depth) {}
+	Nest(Nest && o) noexcept : v(o.v), depth(o.depth) {}
+	Nest(std::initializer_list<Elem> l) : v(l.size() ? l.begin()->v : 0), depth(l.size() ? l.begin()->depth + 1 : 100) {}
+};
+inline Elem::Elem(const Nest & n) : v(n.v), depth(n.depth) {}
+template <size_t M_> static void test_nest()
+{
+	using AD = eventpp::AnyData<M_>;
+	uint32_t x = vf_nondet_u32();
+	Nest n0(x);
+	AD * a = new AD(n0);
+	vf_assert(a->template get<Nest>().v == x && a->template get<Nest>().depth == 0, 176);
+	AD * b = new AD(std::move(*a)); delete a;
+	vf_assert(b->template get<Nest>().v == x && b->template get<Nest>().depth == 0, 177);      // moved, not nested
+	AD * c = new AD(Nest(x));                                                                   // from a temporary
+	AD * d = new AD(std::move(*c)); AD * e = new AD(std::move(*d)); delete c; delete d;
+	vf_assert(e->template get<Nest>().v == x && e->template get<Nest>().depth == 0, 178);
+	delete b; delete e;
+	vf_cover(COV_NEST);       // so that a witness through this test is replayed on the g++ builds: which constructor `T{std::move(t)}` selects is compiler-dependent
+}
+
 extern "C" void harness()
 {
 	{ volatile size_t s1 = eventpp::maxSizeOf<Triv<3>, Triv<17>, Triv<5> >(), s2 = eventpp::maxSizeOf<Triv<9> >(), s3 = eventpp::maxSizeOf<Triv<2>, Triv<1>, Triv<40> >(), s4 = eventpp::maxSizeOf<Triv<40>, Triv<1>, Triv<2> >();
 	  vf_assert(s1 == 17 && s2 == 9 && s3 == 40 && s4 == 40, 175); }
-	unsigned c = vf_choose(21);
+	unsigned c = vf_choose(22);
 	switch(c) {
 	case 0: test_triv<MM, 1>(); break;
 	case 1: test_triv<MM, 2>(); break;
@@ -189,6 +217,7 @@ extern "C" void harness()
 	case 17: test_tracked<MM, Trk<1, false>, true>(); break;
 	case 18: test_tracked<MM, Trk<CAP - 8, false>, true>(); break;
 	case 19: test_tracked<MM, Trk<CAP + 1, false>, true>(); break;
+	case 20: test_nest<MM>(); break;
 	default: test_shared<MM>(); break;
 	}
 	vf_end();
